@@ -218,7 +218,8 @@ func genCase(rt *rapid.T, level string) Case {
 	for wi := 0; wi < nw; wi++ {
 		lbl := fmt.Sprintf("w%d", wi)
 		var w Write
-		kind := rapid.IntRange(0, 10).Draw(rt, lbl+".kind")
+		// (rapid favours small values: the common kinds come first)
+		kindName := []string{"addVertex", "addEdge", "bulkVertex", "addGraph", "bulkEdge", "addVertex", "addEdge", "addIndex", "addGraph", "bulkEdge", "addIndex"}[rapid.IntRange(0, 10).Draw(rt, lbl+".kind")]
 		// which graph is written
 		target := c.GA
 		if wi > 0 && c.Writes[0].Kind == "addGraph" && rapid.Bool().Draw(rt, lbl+".intoNew") {
@@ -260,7 +261,7 @@ func genCase(rt *rapid.T, level string) Case {
 				w.Hostile = append(w.Hostile, "label")
 			}
 			w.Elems = []Elem{{ID: []byte(id), Label: ix.Label, Data: map[string]interface{}{parts[0]: v}}}
-		case kind == 10:
+		case kindName == "addIndex":
 			// a property index; the field carries a suffix unique to the case (the index
 			// listing of a shared store is not isolated per graph)
 			w.Kind = "addIndex"
@@ -272,13 +273,13 @@ func genCase(rt *rapid.T, level string) Case {
 				}
 			}
 			w.Elems = []Elem{{Label: []byte(label), ID: []byte(field)}}
-		case kind <= 1:
+		case kindName == "addGraph":
 			w.Kind = "addGraph"
 			w.Hostile = []string{"graph"}
 			w.Graph = hostile(rt, lbl+".graph", append(append([]string{}, graphsInPlay...), fresh), invalid)
 		default:
-			edge := kind >= 6
-			bulk := kind == 4 || kind == 5 || kind == 9
+			edge := kindName == "addEdge" || kindName == "bulkEdge"
+			bulk := kindName == "bulkVertex" || kindName == "bulkEdge"
 			e := Elem{Edge: edge}
 			// benign defaults
 			if edge {
